@@ -858,6 +858,7 @@ func runEngineQ(p *Prog, o *obls) {
 		if qs.listFld != "" || strings.Contains(qs.consumer, "pacing") {
 			q2Handoff(p, o, cons, qs)
 		}
+		q2SingleConsumer(p, o, cons)
 		// accept-implies-enqueued
 		if qs.enqueue != "" {
 			if enq := p.resolveEnqueue(qs.enqueue); enq != nil {
@@ -2645,4 +2646,120 @@ func p2RepairLoop(p *Prog, o *obls) {
 		}
 	}
 	o.ok("P2", "repair-loops-inspected", "-", fmt.Sprintf("%d loop(s) over rtp.Packet slices that write downstream in per-packet closures", n))
+}
+
+// q2SingleConsumer (rule Q2, one consumer): the order in which a pacer hands packets on is the order in which its one
+// consumer goroutine takes them off the queue — it pops under the queue lock and writes outside it. Every `go` that
+// starts the consumer starts it on an object that the same function has just built (the constructor, the factory's
+// NewInterceptor): a start from a method that can run again (AddStream for an SSRC that is bound a second time)
+// puts a second consumer on the same queue, and packet k+1 is written while packet k is still in flight.
+func q2SingleConsumer(p *Prog, o *obls, cons *ssa.Function) {
+	var starts, bad []string
+	for _, fn := range p.Funcs {
+		if fn.Blocks == nil || !p.InUniverse(fn) {
+			continue
+		}
+		instrsOf(fn, func(in ssa.Instruction) {
+			g, ok := in.(*ssa.Go)
+			if !ok {
+				return
+			}
+			reaches := false
+			var recvArg ssa.Value
+			if sc := g.Call.StaticCallee(); sc != nil {
+				if sc == cons {
+					reaches = true
+					if len(g.Call.Args) > 0 {
+						recvArg = g.Call.Args[0]
+					}
+				} else if sc.Parent() == fn {
+					// go func() { …; i.loop(ctx) }()
+					instrsOf(sc, func(in2 ssa.Instruction) {
+						if c, ok := in2.(ssa.CallInstruction); ok && c.Common().StaticCallee() == cons {
+							reaches = true
+							if len(c.Common().Args) > 0 {
+								recvArg = c.Common().Args[0]
+							}
+						}
+					})
+				}
+			}
+			if !reaches {
+				return
+			}
+			starts = append(starts, p.instrPos(g))
+			fresh := recvArg != nil && q2Fresh(p, recvArg)
+			// an unexported start helper on the receiver: every one of its callers hands it the object it has just built
+			if !fresh && recvArg != nil && len(fn.Params) > 0 && fn.Signature.Recv() != nil && fn.Object() != nil && !fn.Object().Exported() {
+				v := p.origin(recvArg)
+				if fv, isFV := v.(*ssa.FreeVar); isFV {
+					v = p.origin(resolveFreeVar(fv))
+				}
+				if v == ssa.Value(fn.Params[0]) {
+					fresh = p.allCallersSatisfy(fn, func(site ssa.CallInstruction) bool {
+						args := site.Common().Args
+						if len(args) == 0 {
+							return false
+						}
+						return q2Fresh(p, args[0])
+					}, 1)
+				}
+			}
+			if !fresh {
+				bad = append(bad, fmt.Sprintf("the consumer is started at %s (in %s) on an object that was not built there: the function can run again and start a second consumer on the same queue", p.instrPos(g), funcKey(fn)))
+			}
+		})
+	}
+	key := funcKey(cons) + ":one-consumer"
+	switch {
+	case len(bad) > 0:
+		sort.Strings(bad)
+		o.bad("Q2", key, strings.Fields(strings.SplitN(bad[0], " started at ", 2)[1])[0], strings.Join(dedupe(bad), "; ")+": two consumers pop alternately and write outside the queue lock, so the order of acceptance is lost and the budget doubles")
+	case len(starts) == 0:
+		o.note("Q2", key, p.Pos(cons.Pos()), "no go statement starts the consumer inside the repository (the application runs it): not decided")
+	default:
+		o.ok("Q2", key, p.Pos(cons.Pos()), fmt.Sprintf("started at %s, each time on the object the same function has just built", strings.Join(starts, ", ")))
+	}
+}
+
+// q2Fresh: the value is an object built in the function at hand — a heap allocation, the result of a constructor, or a
+// local variable that only ever holds one of those.
+func q2Fresh(p *Prog, v ssa.Value) bool {
+	v = p.origin(v)
+	if fv, isFV := v.(*ssa.FreeVar); isFV {
+		v = p.origin(resolveFreeVar(fv))
+	}
+	one := func(x ssa.Value) bool {
+		switch y := p.origin(x).(type) {
+		case *ssa.Alloc:
+			return y.Heap
+		case *ssa.Call:
+			sc := y.Call.StaticCallee()
+			return sc != nil && isConstructor(p, sc)
+		case *ssa.Extract:
+			if c, ok := y.Tuple.(*ssa.Call); ok {
+				sc := c.Call.StaticCallee()
+				return sc != nil && isConstructor(p, sc)
+			}
+		}
+		return false
+	}
+	if one(v) {
+		return true
+	}
+	if u, isU := v.(*ssa.UnOp); isU {
+		if al, isAl := cellAddr(u.X).(*ssa.Alloc); isAl {
+			n, all := 0, true
+			for _, st := range p.storesInto(al) {
+				if st.Addr == ssa.Value(al) {
+					n++
+					if !one(st.Val) {
+						all = false
+					}
+				}
+			}
+			return n > 0 && all
+		}
+	}
+	return false
 }
